@@ -58,7 +58,7 @@ def discharge(ob: Obligation, timeout_ms: int, use_cvc5=False):
         return {"status": st, "solver": "z3", "time_s": time.time() - t0, "model": None}
     s.add(z3.Not(ob.claim))
     s.set("timeout", min(2000, timeout_ms))
-    r = s.check()
+    r = z3.unknown if ob.info.get("prefer") == "ratnf" else s.check()
     res = {"solver": "z3", "model": None, "model_obj": None}
     if r == z3.unsat:
         res["status"] = "proved"
@@ -68,12 +68,12 @@ def discharge(ob: Obligation, timeout_ms: int, use_cvc5=False):
         res["model"] = _model_str(s.model())
     else:
         res["status"] = "unknown"
-        res["reason"] = s.reason_unknown()
+        res["reason"] = s.reason_unknown() if ob.info.get("prefer") != "ratnf" else "skipped"
         # rational-function normal form (sympy) with z3 side conditions
         from .ratnf import prove_equalities
 
         try:
-            rr = prove_equalities(ob.premises, ob.claim, timeout_ms)
+            rr = prove_equalities(ob.premises, ob.claim, timeout_ms, rules=ob.info.get("ratnf_rules", ()))
         except Exception as e:  # the fallback must never mask the verdict
             rr = ("unknown", f"ratnf error {type(e).__name__}: {e}")
         if rr[0] == "proved":
@@ -205,7 +205,7 @@ def _run_unit(args):
             r = discharge(ob, timeout_ms, use_cvc5=(tier == "thorough"))
             rec = {"name": f"{unit_name}/{ob.name}" if not ob.name.startswith(unit_name) else ob.name,
                    "kind": ob.kind, "status": r["status"], "solver": r["solver"], "time_s": round(r["time_s"], 4),
-                   "model": r.get("model"), "info": {k: v for k, v in ob.info.items() if not callable(v)}}
+                   "model": r.get("model"), "info": {k: v for k, v in ob.info.items() if not callable(v) and k != "ratnf_rules"}}
             if r["status"] == "refuted" and callable(ob.info.get("replay")) and r.get("model_obj") is not None:
                 try:
                     rec["replay"] = ob.info["replay"](r["model_obj"])
